@@ -314,7 +314,9 @@ class Env:
                 self.impl == 'real' and (isinstance(a, complex) or isinstance(b, complex) or _is_np_complex(a) or _is_np_complex(b))):
             if self.impl == 'model':
                 a, b = C.of(a), C.of(b)
-                return sb_and([self.eq(a.re, b.re), self.eq(a.im, b.im)])
+                if scale is None and a.concrete and b.concrete:
+                    scale = max(abs(complex(a)), abs(complex(b)))
+                return sb_and([self.eq(a.re, b.re, scale), self.eq(a.im, b.im, scale)])
             a, b = complex(a), complex(b)
             return abs(a - b) <= self._tol(a, b, scale)
         if self.impl == 'model':
@@ -360,7 +362,13 @@ class Env:
             c = self._both_conc(a, b)
             if c is not None:
                 return c[0] <= c[1] + self._tol(c[0], c[1], scale)
-            return a <= b
+            r = a <= b
+            if isinstance(r, SB) and r.rf is None:
+                m = R(Fr(1, 100000)) * (R.of(scale) if scale is not None and not hasattr(scale, 't') else 1)
+                g = a > b + m
+                if isinstance(g, SB):
+                    r = SB(r.t, None, g.t)
+            return r
         return a <= b + self._tol(a, b, scale)
 
     def lt(self, a, b, scale=None):
@@ -368,7 +376,13 @@ class Env:
             c = self._both_conc(a, b)
             if c is not None:
                 return c[0] < c[1] + self._tol(c[0], c[1], scale)
-            return a < b
+            r = a < b
+            if isinstance(r, SB) and r.rf is None:
+                m = R(Fr(1, 100000)) * (R.of(scale) if scale is not None and not hasattr(scale, 't') else 1)
+                g = a > b + m
+                if isinstance(g, SB):
+                    r = SB(r.t, None, g.t)
+            return r
         return a < b + self._tol(a, b, scale)
 
     def eqs(self, xs, ys, scale=None):
@@ -729,17 +743,82 @@ class ConfigResult(dict):
     pass
 
 
+_vars_cache = {}
+
+
+def _vars_of(t):
+    """names of the uninterpreted constants of a term (cached by AST id while the term is alive)."""
+    key = t.get_id()
+    hit = _vars_cache.get(key)
+    if hit is not None and hit[0].eq(t):
+        return hit[1]
+    seen, out, stack = set(), set(), [t]
+    while stack:
+        x = stack.pop()
+        i = x.get_id()
+        if i in seen:
+            continue
+        seen.add(i)
+        if z3.is_const(x) and x.decl().kind() == z3.Z3_OP_UNINTERPRETED:
+            out.add(x.decl().name())
+        else:
+            stack.extend(x.children())
+    _vars_cache[key] = (t, out)
+    return out
+
+
+def cone(facts, goal_terms):
+    """cone of influence: the facts transitively sharing a variable with the goal.  Dropping the others is sound for
+    `unsat` and, because every dropped group is a satisfiable set of true facts over its own fresh variables, also for `sat`."""
+    live = set()
+    for g in goal_terms:
+        live |= _vars_of(g)
+    rest = [(f, _vars_of(f)) for f in facts]
+    keep = []
+    changed = True
+    while changed:
+        changed = False
+        nxt = []
+        for f, vs in rest:
+            if not vs or (vs & live):
+                keep.append(f)
+                if not vs <= live:
+                    live |= vs
+                    changed = True
+            else:
+                nxt.append((f, vs))
+        rest = nxt
+    return keep
+
+
 def prove(facts, goal_t, timeout_ms):
     """(verdict, model): verdict 'unsat' = goal holds under facts."""
     s = z3.Solver()
     s.set('timeout', timeout_ms)
-    for f in facts:
+    neg = z3.Not(goal_t)
+    for f in cone(facts, [neg]):
         s.add(f)
-    s.add(z3.Not(goal_t))
+    s.add(neg)
     t0 = time.time()
     r = str(s.check())
+    m = s.model() if r == 'sat' else None
+    if r == 'sat':
+        # complete the model over the facts that were outside the cone (input ranges of unrelated variables, ...)
+        s2 = z3.Solver()
+        s2.set('timeout', min(timeout_ms, 20000))
+        for f in facts:
+            s2.add(f)
+        s2.add(neg)
+        for d in m.decls():
+            if d.arity() == 0:
+                v = m[d]
+                if z3.is_algebraic_value(v):
+                    continue
+                s2.add(d() == v)
+        if str(s2.check()) == 'sat':
+            m = s2.model()
     dt = time.time() - t0
-    return r, (s.model() if r == 'sat' else None), dt, s
+    return r, m, dt, s
 
 
 def run_symbolic(scen, cfg, lib, limits=None, known=None, prop='?', cfg_name='?'):
